@@ -199,9 +199,10 @@ def _enum(cls, v):
         return v
 
 
-def build(x: dict, route: int = 0):
+def build(x: dict, route: int = 0, bonds_by: str | None = None):
     """Real object for an abstract one, through the public constructors.  `route` varies the way bonds
-    and ensembles are put together (connect / Bond+append_bond; arrays through the constructor / setters)."""
+    and ensembles are put together (connect / Bond+append_bond; arrays through the constructor / setters);
+    bonds_by="append" adds every bond as Bond(...) + append_bond."""
     from molli.chem import (Atom, Bond, Molecule, ConformerEnsemble, Element, AtomType, AtomStereo, AtomGeom,
                             BondType, BondStereo)
     atoms = []
@@ -243,7 +244,7 @@ def build(x: dict, route: int = 0):
         kw = dict(label=untok(b["label"]), btype=_enum(BondType, untok(b["btype"])),
                   stereo=_enum(BondStereo, untok(b["stereo"])), f_order=fval(b["fo"]),
                   attrib=unflat_attr(b["attrib"]))
-        if (route // 2 + i) % 2 == 0:
+        if bonds_by != "append" and (route // 2 + i) % 2 == 0:
             o.connect(b["a1"], b["a2"], **kw)
         else:
             o.append_bond(Bond(atoms[b["a1"]], atoms[b["a2"]], **kw))
@@ -385,6 +386,13 @@ class Gen:
                     o.connect(i, j, **kw)
                 else:
                     o.append_bond(Bond(at[i], at[j], **kw))
+                if r.random() < 0.3:
+                    # a second bond between the same two atoms (same or reversed ends, other fields): the bond
+                    # sequence is a sequence, not a set of pairs
+                    kw2 = dict(kw, label=r.choice([kw["label"], "second"]), btype=BondType(r.choice(self.BT)),
+                               f_order=r.choice([kw["f_order"], 0.5]))
+                    i2, j2 = (i, j) if r.random() < 0.5 else (j, i)
+                    o.append_bond(Bond(at[i2], at[j2], **kw2))
         return o
 
 
